@@ -278,6 +278,12 @@ pub fn run_session(forms: &[Cell], cfg: &RunCfg) -> Vec<Value> {
         j["maxsp"] = json!(s.vm.verif.max_sp);
         j["instr"] = json!(s.vm.verif.instr);
         j["cap"] = json!(s.vm.verif_stack().len());
+        if let Outcome::Ok(_) = &o {
+            // the stack trace belongs to the last evaluation: after a success there is none
+            if s.vm.last_stacktrace().is_some() {
+                j["stale_tr"] = json!(true);
+            }
+        }
         if let Outcome::Err(_) = &o {
             if let Some(st) = s.vm.last_stacktrace() {
                 let frames: Vec<String> = st
